@@ -12,6 +12,12 @@ claimed = {
  "C10": ("exploration", "bounded exhaustive enumeration of byte strings and of all single-byte substitutions of valid frames",
    "All byte strings up to length 3, all strings up to length 6/7 over a 14-byte delimiter alphabet, all 2^24 SD2 headers with structured bodies, and every single-byte substitution of a set of valid frames are decoded by the real decoder; the clauses of the statement are checked on each verdict and on each string/prefix pair.",
    "Trusted: reference codec; NeedMore judged by announced length; longer random strings are not covered.", "6 C10"),
+ "C16": ("model_checking", "exhaustive enumeration of chunkings (<=3 cut points) and call policies of the real receive helpers against a reference buffer model",
+   "Every telegram sequence of length <=3 over 8 telegram kinds is delivered in every chunking with up to 3 cut points to the real receive_telegram / receive_all_telegrams / poll_pending_received_bytes helpers over three PHYs (byte queue, BusSim, the repository's SimulatorPhy); every call is compared with a reference buffer model, and the end-to-end sequence with what was sent.",
+   "Trusted: reference codec/buffer model; pairs/triples of cuts restricted to header/tail/stride positions for long streams.", "6 C16"),
+ "C17": ("exploration", "bounded exhaustive enumeration of diagnostics PDUs through the public DP path against a reference block parser",
+   "All 2^16 flag words, all PDU lengths 0..244 x buffer sizes, all 1- and 2-byte extended-diagnostics strings and all sequences of <=3 catalogue blocks cut at every length are delivered through DpMaster::receive_reply (three peripheral states) and DpScanner; flags/ident/master address, the storage rule and the block iteration (incl. Debug formatting) are compared with a reference parser.",
+   "Trusted: reference block parser; length-1 blocks accepted either way; permanent bit may be stripped.", "6 C17"),
 }
 not_applicable_reasons = {}
 
